@@ -60,6 +60,29 @@ class PlainLink(SymlinkNodeMixin):
         return "PlainLink(...)"
 
 
+class Registered(object):
+    """A cooperative base class (its constructor passes on to the next class in the MRO)."""
+
+    def __init__(self, *args, **kwargs):
+        super(Registered, self).__init__(*args, **kwargs)
+        self.registered = True
+
+
+class LateSuperNM(Registered, NodeMixin):
+    """User class in a cooperative multiple-inheritance chain that sets up its tree position first and calls
+    the remaining constructors afterwards."""
+
+    def __init__(self, name=None, parent=None, children=None):
+        self.name = name
+        self.parent = parent
+        if children:
+            self.children = children
+        super(LateSuperNM, self).__init__()
+
+    def __repr__(self):
+        return "LateSuperNM(%r)" % (self.name,)
+
+
 class Estimator(object):
     """A user base class with its own meaning for names that NodeMixin also defines (decision-tree style flags).
 
@@ -262,6 +285,8 @@ def factory(clsname):
         # with size/path/depth columns): keyword attributes go into the instance dictionary, the properties still win
         data = {"size": 2048, "height": 80, "depth": 7, "leaves": "oak", "descendants": (), "path": "/tmp/x", "ancestors": None, "root": "sqrt", "is_leaf": "maybe", "is_root": 0, "siblings": 3, "anchestors": 1}
         return lambda label: (Node(str(label), **data) if int(label) % 2 else AnyNode(name=str(label), **data))
+    if clsname == "LateSuperNM":
+        return lambda label: LateSuperNM(str(label))
     if clsname == "ShadowMRO":
         return lambda label: ShadowMRO(str(label))
     if clsname == "SelfLinks":
